@@ -194,11 +194,18 @@ trInts(const int *a, int n) {
 	for (i = 0; i < n; i++) trprintf(i ? ",%d" : "%d", a[i]);
 }
 
+static widechar *lastPassOut = NULL;
+static int lastPassOutLen = 0;
+
 static void
 hookPass(int dir, int passNo, const widechar *in, int inlen, const widechar *out,
 		int outlen, int outmax, const int *map, int realInlen, int cursorPosition,
 		int cursorStatus) {
 	if (!traceOn) return;
+	free(lastPassOut);
+	lastPassOut = malloc((outlen > 0 ? outlen : 1) * sizeof(widechar));
+	memcpy(lastPassOut, out, (outlen > 0 ? outlen : 0) * sizeof(widechar));
+	lastPassOutLen = outlen;
 	trprintf(" | P %d %d ", dir, passNo);
 	trWide(in, inlen);
 	trprintf(" ");
@@ -442,6 +449,36 @@ doTranslate(int back, char **tok, int ntok) {
 	}
 	printLogSuffix();
 	printTraceSuffix();
+	if (traceOn) {
+		const TranslationTableHeader *t = _lou_getTranslationTable(list);
+		const DisplayTableHeader *dt = _lou_getDisplayTable(displayList ? displayList : list);
+		if (t) printf(" | TI %d %d", t->corrections ? 1 : 0, (int)t->numPasses);
+		if (dt) {
+			int first = 1, j;
+			printf(" | D ");
+			if (!back) {
+				for (i = 0; i < lastPassOutLen; i++) {
+					for (j = 0; j < i; j++)
+						if (lastPassOut[j] == lastPassOut[i]) break;
+					if (j < i) continue;
+					printf(first ? "%04x:%04x" : ",%04x:%04x", lastPassOut[i],
+							_lou_getCharForDots(lastPassOut[i], dt));
+					first = 0;
+				}
+			} else {
+				for (i = 0; i < origInlen && in[i]; i++) {
+					for (j = 0; j < i; j++)
+						if (in[j] == in[i]) break;
+					if (j < i) continue;
+					printf(first ? "%04x:%04x" : ",%04x:%04x", in[i],
+							_lou_getDotsForChar(in[i], dt));
+					first = 0;
+				}
+			}
+			if (first) printf(".");
+		}
+		lastPassOutLen = 0;
+	}
 	printf("\n");
 	free(in);
 	free(out);
